@@ -38,7 +38,7 @@ determinism)
   ;;
 seeded)
   FAIL=0
-  for D in "$VERIF"/seeded/*/; do
+  for D in "$VERIF"/seeded/${2:-*}/; do
     [ -f "$D/patch.diff" ] || continue
     ID="$(basename "$D")"
     PROP="$(python3 -c "import json; m=json.load(open('$D/meta.json')); print(m.get('property_check_for_selftest', m['property']))")"
@@ -51,8 +51,34 @@ seeded)
     if [ $RC = 1 ]; then echo "$ID ($PROP): caught"; else echo "$ID ($PROP): NOT caught (exit $RC, expected caught=$EXPECT)"; [ "$EXPECT" = True ] && FAIL=1; fi
     rm -f "$M.log"
   done
-  rm -rf "$VERIF/replays"
+  rm -rf "$VERIF/replays" /tmp/verif-ev.*
   exit $FAIL
   ;;
-*) echo "usage: ./selftest.sh determinism|seeded"; exit 2;;
+replay)
+  # every violation reported against a seeded change must replay exactly from its file, in a fresh process
+  FAIL=0
+  for D in "$VERIF"/seeded/${2:-*}/; do
+    [ -f "$D/patch.diff" ] || continue
+    ID="$(basename "$D")"
+    PROP="$(python3 -c "import json; m=json.load(open('$D/meta.json')); print(m.get('property_check_for_selftest', m['property'])[:3])")"
+    [ "$(python3 -c "import json; m=json.load(open('$D/meta.json')); print(bool(m.get('caught_by')))")" = True ] || continue
+    M="$(mktemp -d /tmp/verif-seeded.XXXXXX)"
+    rsync -a --exclude .git "$REPO"/ "$M"/
+    if ! ( cd "$M" && patch -p1 -s < "$D/patch.diff" ); then echo "$ID: patch does not apply"; FAIL=1; rm -rf "$M"; continue; fi
+    rm -rf "$VERIF/replays"
+    VERIF_REPO="$M" "$VERIF/check" "$PROP" --tier quick > "$M.log" 2>&1; RC=$?
+    if [ $RC != 1 ]; then echo "$ID ($PROP): not caught (exit $RC)"; FAIL=1; rm -rf "$M" "$M.log"; continue; fi
+    N=0; OK=0
+    for R in $(grep -o 'replay=[^ ]*' "$M.log" | cut -d= -f2 | head -3); do
+      N=$((N+1))
+      if VERIF_REPO="$M" "$VERIF/check" "$PROP" --replay "$R" 2>&1 | grep -q "^reproduced: .*event-log-identical=true"; then OK=$((OK+1)); fi
+    done
+    echo "$ID ($PROP): $OK of $N replay files reproduce with an identical event log"
+    [ "$OK" = "$N" ] && [ "$N" -gt 0 ] || FAIL=1
+    rm -rf "$M" "$M.log"
+  done
+  rm -rf "$VERIF/replays" /tmp/verif-ev.*
+  exit $FAIL
+  ;;
+*) echo "usage: ./selftest.sh determinism [props] | seeded [glob] | replay [glob]"; exit 2;;
 esac
